@@ -3,7 +3,7 @@
 From Coq Require Import ZArith List Bool Lia.
 From VBase Require Import MachInt.
 From VModel Require Import Merkle Integrity.
-From VProofs Require Import MerkleBase MerkleSingle IntegrityOrder IntegrityBinding.
+From VProofs Require Import MerkleBase MerkleSingle MerkleTotal IntegrityOrder IntegrityBinding.
 Import ListNotations.
 Local Open Scope nat_scope.
 
@@ -72,3 +72,25 @@ Example ex_absorb_run :
   coin Z (fun c => match c with ConstraintRoot => 1%Z | _ => 0%Z end) (events current ex_shape0) (CEmpty Z)
   <> coin Z (fun _ => 0%Z) (events current ex_shape0) (CEmpty Z).
 Proof. apply (absorb_binding Z _ _ _ ConstraintRoot); apply ex_absorb_hyps. Qed.
+
+(* (a) batch form: the hypotheses of auth_binding_batch are satisfiable with different opened rows (constant merge:
+   everything verifies), so its conclusion is not vacuous; here the collision-of-merge branch is the inhabited one *)
+Definition ex_tree : mtree Z := {| mt_nodes := [0; 0]%Z; mt_leaves := [1; 2]%Z |}.
+
+Example ex_auth_batch_hyps :
+  let merge := fun _ _ : Z => 0%Z in
+  wf_tree Z 0%Z merge 1 ex_tree /\ usize_list [0%Z] /\
+  verify_batch Z Z.eqb merge (hval Z 0%Z ex_tree 1) [0%Z]
+    {| bp_leaves := map (fun v : Z => v) [5%Z]; bp_nodes := [[2%Z]]; bp_depth := Z.of_nat 1 |} = Ok tt /\
+  verify_batch Z Z.eqb merge (hval Z 0%Z ex_tree 1) [0%Z]
+    {| bp_leaves := map (fun v : Z => v) [6%Z]; bp_nodes := [[2%Z]]; bp_depth := Z.of_nat 1 |} = Ok tt /\
+  [5%Z] <> [6%Z].
+Proof.
+  cbv zeta. split; [| split; [| split; [| split]]].
+  - constructor; [lia | reflexivity | reflexivity |].
+    intros k Hk. change (2 ^ Z.of_nat 1)%Z with 2%Z in Hk. assert (k = 1%Z) as -> by lia. reflexivity.
+  - intros x [<- | []]. lia.
+  - vm_compute. reflexivity.
+  - vm_compute. reflexivity.
+  - discriminate.
+Qed.
